@@ -181,3 +181,31 @@ CHECKS['C19'] = dict(
     min_counters={'quick': {'clip_frames': 100000, 'clip_continued_from_memory': 20000, 'gain_calls': 50000, 'msgain_frames': 4000},
                   'thorough': {'clip_frames': 1000000}},
 )
+
+CHECKS['C13'] = dict(
+    level='exploration',
+    rule="enc: three twin encoders (opus_encode / opus_encode24 / opus_encode_float on v, v*256, v/32768; LSB depth 8..16) under one random "
+         "ctl history (all settings of C02 plus expert frame durations shorter than the submitted buffer), 8..36 frames of 14 signal families, "
+         "buffers 2..1500 bytes: lengths, bytes and final ranges must be identical. encms: the same for surround families 0/1/255 and "
+         "projection family 3. dec: float/int16/int24 twin decoders on loud encoder streams (input up to +6 dBFS, optional decoder gain), "
+         "received / lost / FEC / mutated packets, resets; msdec: multistream decoders incl. muted channels; proj: projection decoders, orders "
+         "1..5, near-full-scale input in every channel, against per-stream integer twins and the exported demixing matrix. Distinct = (TOC, "
+         "expert duration, rate, application, depth, signal / call kind, gain, saturation seen / family, channels).",
+    assumptions=COMMON_ASSUME + ["concealment and FEC calls return before the soft clipper: for them the 16-bit output may be either the hard-saturated or the soft-clipped rounding of the float twin (both accepted, counted separately)",
+                                 "projection 16-bit output under saturation may be anywhere between saturating-accumulate and saturate-at-end; a wrap (off by ~65536) is rejected"],
+    evals_counter=None,
+    runs=[
+        dict(h='h_c13.c', mode='enc', flavour='asan', n={'quick': 1600, 'thorough': 40000}),
+        dict(h='h_c13.c', mode='enc', flavour='asan-fixed', n={'quick': 600, 'thorough': 15000}),
+        dict(h='h_c13.c', mode='encms', flavour='asan', n={'quick': 320, 'thorough': 8000}),
+        dict(h='h_c13.c', mode='dec', flavour='asan', n={'quick': 1600, 'thorough': 40000}),
+        dict(h='h_c13.c', mode='dec', flavour='prod', n={'quick': 1600, 'thorough': 40000}),
+        dict(h='h_c13.c', mode='dec', flavour='asan-fixed', n={'quick': 480, 'thorough': 12000}),
+        dict(h='h_c13.c', mode='msdec', flavour='asan', n={'quick': 480, 'thorough': 12000}),
+        dict(h='h_c13.c', mode='proj', flavour='asan', n={'quick': 480, 'thorough': 12000}),
+        dict(h='h_c13.c', mode='proj', flavour='asan-fixed', n={'quick': 160, 'thorough': 4000}),
+    ],
+    min_nontrivial={'quick': 1000, 'thorough': 2000},
+    min_counters={'quick': {'enc_triples': 30000, 'enc_expert_shorter_than_buffer': 500, 'dec_triples': 50000, 'dec_samples_above_full_scale': 100000, 'proj_samples_saturating': 1000, 'msdec_triples': 4000},
+                  'thorough': {'enc_triples': 800000}},
+)
